@@ -724,6 +724,40 @@ def standin_idle_gauges(tier, seed):
 standin_idle_gauges.prop = "C06"
 STANDINS.append(standin_idle_gauges)
 
+
+def standin_unroll_dependencies(tier, seed):
+    """unrolling a sub-circuit that MEASURES a key which a later operation on other qubits reads (and one that READS a key measured just
+    before it on other qubits): the three unrolling transformers keep the classical dependency (same record distribution, valid program)"""
+    import cirq
+    from cirq.transformers.transformer_primitives import MAPPED_CIRCUIT_OP_TAG
+
+    cases, fails = 0, []
+    q0, q1, q2 = cirq.LineQubit.range(3)
+    tag = MAPPED_CIRCUIT_OP_TAG
+    sub_m = cirq.CircuitOperation(cirq.FrozenCircuit(cirq.X(q0) ** 0.5, cirq.measure(q0, key="m"))).with_tags(tag)
+    sub_r = cirq.CircuitOperation(cirq.FrozenCircuit(cirq.H(q1), cirq.X(q1).with_classical_controls("m"), cirq.measure(q1, key="k"))).with_tags(tag)
+    circuits_ = {
+        "measuring sub-circuit, then a control on another qubit": cirq.Circuit(cirq.Moment(sub_m), cirq.Moment(cirq.X(q1).with_classical_controls("m")), cirq.Moment(cirq.measure(q1, key="k"))),
+        "measurement, then a reading sub-circuit on another qubit": cirq.Circuit(cirq.Moment(cirq.H(q0)), cirq.Moment(cirq.measure(q0, key="m")), cirq.Moment(sub_r)),
+        "measuring sub-circuit next to an idle qubit, then a reading sub-circuit": cirq.Circuit(cirq.Moment(sub_m, cirq.H(q2)), cirq.Moment(sub_r), cirq.Moment(cirq.measure(q2, key="z"))),
+    }
+    for cname, c in circuits_.items():
+        want = refsim.ref_distribution(cirq.Circuit(cirq.decompose(c)), [q0, q1, q2])
+        for tname, tf in (("unroll_circuit_op", cirq.unroll_circuit_op), ("unroll_circuit_op_greedy_earliest", cirq.unroll_circuit_op_greedy_earliest), ("unroll_circuit_op_greedy_frontier", cirq.unroll_circuit_op_greedy_frontier)):
+            cases += 1
+            out = tf(c)
+            try:
+                got = refsim.ref_distribution(out, [q0, q1, q2])
+            except refsim.ControlBeforeMeasurement as ex:
+                fails.append(dict(args=dict(transformer=tname, scenario=cname, circuit=repr(c), output=repr(out)[:1200]), failed="unroll-classical-dependency", clause=f"{tname}: the unrolled circuit is not a valid program: {ex}"))
+                continue
+            if not refsim.dist_close(got, want, atol=1e-6):
+                fails.append(dict(args=dict(transformer=tname, scenario=cname, circuit=repr(c), output=repr(out)[:1200]), failed="unroll-classical-dependency", clause=f"{tname}: the record distribution changed"))
+    return dict(function=F + "/transformer_primitives.py:unroll_circuit_op*", case="unroll-dependencies", bound="3 fixed circuits (a measuring / a reading sub-circuit with the dependent operation on other qubits) x 3 unrolling transformers",
+                cases=cases, distinct=cases, failures=len(fails), exhaustive=True, _fails=fails[:4])
+standin_unroll_dependencies.prop = "C06"
+STANDINS.append(standin_unroll_dependencies)
+
 def standin_subcircuit_handling(tier, seed):
     """sub-circuit operations (tagged to be ignored or not, nested, repeated) under deep=False / deep=True: tagged operations are
     found unchanged at the same nesting position, untagged sub-circuits are untouched unless deep is requested, the unitary stays"""
